@@ -453,6 +453,37 @@ def moduleReadM {α β γ : Type} (cast : Int → α) (mul : α → γ → β) (
 /-- The calls the module-level `read` makes on the reader it opens, with their integer arguments. -/
 def moduleReadCalls (first last : Int) : List (String × List Int) := [("read_samples", [first, last])]
 
+/-! ### Statement skeletons (what the translator tie `Tie/C01.lean` compares the source text with)
+
+The array statements of the source, in order, each with the VARIABLES it reads (the integers stand for the variables
+`nsel`, `csel`, …, not for values).  Every entry names the model definition that transcribes the statement. -/
+
+/-- `Reader.read` (reader with metadata, `sync=False`):
+`csel = self.raw_channel_order[csel]` — `readAt`: `cdisk := (axisSel csel nc).map r.order`;
+`darray = self._raw[nsel, :].astype(np.float32, copy=True)[..., csel]` — `readAt`: rows `rpos`, `cast`, columns `cdisk`;
+`darray *= self.channel_conversion_sample2v[self.type][csel]` — `readAt`: `mul · (r.s2v c)` at the SAME `cdisk`. -/
+def readStatements (nsel csel : Int) : List (String × List Int) :=
+  [("csel = raw_channel_order[csel]", [csel, csel]),
+   ("darray = raw[nsel, :].astype(float32)[..., csel]", [nsel, csel]),
+   ("darray *= s2v[type][csel]", [csel])]
+
+/-- `Reader.__init__` (file with metadata and a geometry) — `rawChannelOrder nc (some order)`: the identity on
+`nc` channels whose first `order.size` entries are overwritten by the order `geometry_from_meta(meta, sort=sort)`
+returns (`geomOrder sort`). -/
+def initOrderStatements (nc : Int) : List (String × List Int) :=
+  [("geometry, order = geometry_from_meta(meta, sort=sort)", []),
+   ("raw_channel_order = arange", [nc]),
+   ("raw_channel_order[:order.size] = order", [])]
+
+/-- The ordering statements of `geometry_from_meta` — `geomOrder sort`: with `sort` the stable sort `orderM` by
+`Site.key = (shank, row, -col)` (`np.lexsort` sorts by the LAST key first; the integers are the signs of `col`,
+`row`, `shank` in `sort_keys`) and every vector re-indexed by it (`sortGeom`); without, `List.range`. -/
+def geomOrderStatements (sort : Bool) : List (String × List Int) :=
+  if sort then
+    [("ind = arange(n)", []), ("keys = (±col, ±row, ±shank)", [-1, 1, 1]), ("inds = lexsort(keys), last key first", []),
+     ("every vector reindexed by inds", [])]
+  else [("ind = arange(n)", []), ("inds = arange(n)", [])]
+
 /-! ### All int16 contents at once (driver only): a checksum of `float32(x) ⊗ g` over the 65 536 sample values -/
 
 /-- `Σ (k+1)·bits(scale(castF32 x_k) g)  mod 2^64`, `x_k = k - 32768`, `k = 0 … 65535`. -/
